@@ -99,9 +99,9 @@ func (n *enode) write(b *strings.Builder) {
 	}
 }
 
-func mapFn(k, v int) int       { return v*5 + k }
-func map2Fn(k, a, b int) int   { return a*31 + b*17 + k }
-func callFn(k, env int) int    { return env*3 + k }
+func mapFn(k, v int) int     { return v*5 + k }
+func map2Fn(k, a, b int) int { return a*31 + b*17 + k }
+func callFn(k, env int) int  { return env*3 + k }
 func mixArgs(v int, a []int) int {
 	r := v * 7
 	for i, x := range a {
